@@ -41,6 +41,9 @@ CORPUS = [
     ('boundary2d-normal-linear',
      "V = VForm(2, boundary=True, arity=1)\nv = V.basisfuns()\ng = V.input('g', shape=(2,))\nf = V.input('f')\n"
      "V.add((inner(g, V.normal) + f) * v * ds)"),
+    ('boundary3d-normal-bilinear',
+     "V = VForm(3, boundary=True)\nu, v = V.basisfuns()\ng = V.input('g', shape=(3,))\n"
+     "V.add((u * v + inner(g, V.normal) * u * v + inner(grad(u), V.normal) * v) * ds)"),
     ('surface2in3-parametric',
      "V = VForm(2, geo_dim=3)\nu, v = V.basisfuns()\nf = V.input('f')\n"
      "V.add((u * v + f * inner(grad(u, parametric=True), grad(v, parametric=True)) + Dx(f, 1, parametric=True) * u * v) * ds)"),
@@ -62,6 +65,13 @@ CORPUS = [
      "V = VForm(3)\nu, v = V.basisfuns()\nf = V.input('f')\n"
      "B = V.let('B', V.W * dot(V.JacInv, V.JacInv.T), symmetric=True)\n"
      "V.add(B.dot(grad(u, parametric=True)).dot(grad(v, parametric=True)) + f * B[2, 0] * u * v)"),
+    ('derivatives-of-quotients-products-powers',
+     "V = VForm(2)\nu, v = V.basisfuns()\nf = V.input('f')\ng = V.input('g', shape=(2,))\n"
+     "V.add((Dx(f / g[0], 0) * u * v + inner(grad(f * g[1] / (g[0] + 2.0)), grad(v)) * u + Dx(u / f, 1, parametric=True) * v"
+     " + div(g / f) * u * v + Dx((f * f) / (g[1] * f), 1) * u * v + Dx((f * g[0]) ** 2, 0, parametric=True) * u * v) * dx)"),
+    ('derivatives-of-quotients-3d-linear',
+     "V = VForm(3, arity=1)\nu = V.basisfuns()\nf = V.input('f')\nx = V.Geo\n"
+     "V.add((Dx(f / (x[0] * x[0] + 2.0), 2) + inner(grad(x[1] / f), grad(u / f))) * u * dx)"),
     ('precedence-div-by-product-neg-powers',
      "V = VForm(2)\nu, v = V.basisfuns()\nf = V.input('f')\nc = V.parameter('c')\nx = V.Geo\n"
      "V.add((u * v / (c * f) + (f ** -2) * u * v / (f / (c * 2.0)) - (-(f * c)) ** 3 * u * v"
@@ -94,12 +104,14 @@ def precedence_form(rng, k):
     unary minus inside products and powers; atoms are positive so that most values are finite"""
     atoms = ['f', 'c', '2.0', '0.5', '(x[0] * x[0] + 1.5)', 'f', 'c']
 
-    def E(depth):
+    def E(depth, noneg=False):
         if depth <= 0 or rng.random() < 0.2:
             return rng.choice(atoms)
-        a, b, c2 = E(depth - 1), E(depth - 1), E(depth - 1)
-        k2 = rng.choice(['div_prod', 'div_quot', 'prod_div_prod', 'negpow', 'neg_in_prod', 'neg_pow', 'div_neg', 'sub_div',
-                         'inv_prod', 'div_div', 'mul', 'add'])
+        a, b, c2 = E(depth - 1, noneg), E(depth - 1, noneg), E(depth - 1, noneg)
+        kinds = ['div_prod', 'div_quot', 'prod_div_prod', 'negpow', 'sub_div', 'inv_prod', 'div_div', 'mul', 'add']
+        if not noneg:
+            kinds += ['neg_in_prod', 'neg_pow', 'div_neg']
+        k2 = rng.choice(kinds)
         return {
             'div_prod': '(%s / (%s * %s))' % (a, b, c2),
             'div_quot': '(%s / (%s / %s))' % (a, b, c2),
@@ -120,7 +132,12 @@ def precedence_form(rng, k):
              'u, v = V.basisfuns()' if arity == 2 else 'u = V.basisfuns()',
              "f = V.input('f')", "c = V.parameter('c')", 'x = V.Geo']
     bf = 'u * v' if arity == 2 else 'u'
-    lines.append('V.add(%s * %s / (%s * %s) * dx)' % (E(2), bf, E(1), E(1)))
+    coef = E(2)
+    if rng.random() < 0.6:
+        # derivative (physical or parametric) of a quotient / product / power of fields: no unary minus inside (NegExpr is
+        # documented as not differentiable)
+        coef = '(%s + Dx(%s, %d%s))' % (coef, E(2, noneg=True), rng.randrange(d), rng.choice(['', ', parametric=True']))
+    lines.append('V.add(%s * %s / (%s * %s) * dx)' % (coef, bf, E(1), E(1)))
     return {'id': 'p%03d' % k, 'code': '\n'.join(lines), 'stream': 'precedence', 'kind': 'precedence', 'dim': d, 'arity': arity}
 
 
@@ -681,6 +698,9 @@ def toolchain_signature(res):
     return 'impl:%s' % st.replace(':', '-').lower()
 
 
+shadow_msgs = []
+
+
 def judge(ctx, spec, res, stats):
     """classify one form result; report violations"""
     st = res['status']
@@ -711,6 +731,9 @@ def judge(ctx, spec, res, stats):
         if inst.get('orientation') == -1:
             stats['orientation_reversing_instances'] += 1
         key = (spec['code'], inst.get('seed'), json.dumps(inst.get('cfg'), sort_keys=True))
+        if inst.get('history_sides'):
+            rep = dict(rep, history='assemblies for the sides %s in this order, all through ONE args dict (instantiate_assembler(cls, kvs, shared_args, '
+                       'None, side)); the reported entries belong to the last one' % inst['history_sides'])
         if inst.get('cfg'):
             rep = dict(rep, cfg=inst['cfg'])
             stats['two_space_orderings' if 'p0' in inst['cfg'] else 'forced_orientation'] += 1
@@ -733,6 +756,10 @@ def judge(ctx, spec, res, stats):
         ctx.count(key, nontrivial=c['compared_full'] + c['compared_local'] > 0, n=c['entries'])
         for k in ('entries', 'compared_full', 'compared_local', 'undefined', 'zero_support', 'nonlinear'):
             stats[k] += c[k]
+        stats['compared_source'] += c.get('compared_source', 0)
+        stats['shadow:' + str(inst.get('shadow', 'none')).split(':')[0]] += 1
+        if str(inst.get('shadow', '')).startswith('unsupported') and len(shadow_msgs) < 6:
+            shadow_msgs.append(inst['shadow'][:160])
         stats['maxratio'] = max(stats.get('maxratio', 0.0), c['maxratio'] if c['maxratio'] != float('inf') else 1e300)
         for inc in inst.get('inconsistent', []):
             ctx.report('impl:inconsistent:' + str(inc[0]), 'two access paths to the same entry disagree: %s' % (inc,),
@@ -742,7 +769,13 @@ def judge(ctx, spec, res, stats):
             hd = res['header']
             cls = '%dd-%s%s%s' % (hd['dim'], 'bilinear' if hd['arity'] == 2 else 'linear', '-vec' if hd['vec'] else '',
                                   '-boundary' if hd['boundary'] else ('-surface' if hd['geo_dim'] != hd['dim'] else ''))
-            if f['kind'] == 'nonzero-without-common-support':
+            if f['kind'] == 'source-semantics':
+                sig = 'impl:source-semantics:%s' % (spec['id'] if stream in ('shipped', 'corpus') else cls)
+                what = ('entry %s (component %d): the expression tree the form was BUILT into denotes %r (the compiled assembler returns %r), but the '
+                        'form as written denotes %r by automatic differentiation of its source (|diff| = %.3g > bound %.3g): an operator expansion / '
+                        'differentiation rule applied at construction time is wrong' % (f['index'], f['comp'], f['tree_oracle'], f['impl'], f['oracle'],
+                                                                                       abs(f['tree_oracle'] - f['oracle']), f['bound']))
+            elif f['kind'] == 'nonzero-without-common-support':
                 sig = 'impl:nonzero-without-support:' + cls
                 what = 'entry %s of basis functions without common support is %r, not 0' % (f['index'], f['impl'])
             else:
@@ -779,6 +812,13 @@ def run(ctx):
         'documented convention (outward for det J > 0, hence inward for det J < 0)',
         'operator-precedence stress: two fixed corpus forms and 2 (thorough 30) generated forms per run with divisions by products and '
         'quotients, nested divisions, negative integer powers, unary minus inside products and powers',
+        'second oracle (harness/props/c01_shadow.py): the form\'s SOURCE is executed against an independent re-implementation of the vform '
+        'API that evaluates 2-jets (automatic differentiation in the parametric coordinates; physical derivatives via a jet of J^-1) at the '
+        'Gauss nodes; it shares nothing with vform.py\'s symbolic differentiation/operator expansion, which is applied when a form is BUILT and is '
+        'therefore already contained in the forest the first oracle interprets; every entry is compared three ways (compiled, tree oracle, source oracle)',
+        'histories: every instance of a boundary form is a SEQUENCE of assemblies, one per side in random order (up to 4), that hand ONE args dict '
+        'to instantiate_assembler as a loop over boundary conditions does; each step is compared with the oracle (measure and outer normal of that '
+        'side) and bitwise with an assembly from a fresh dict',
         'every quick run assembles two-space (Petrov-Galerkin) forms in 1-D/2-D/3-D on 17 FIXED degree orderings (space-1 degree higher, lower, '
         'equal, mixed per axis; identity and curved geometry) and compares them with the oracle at max-degree-over-both-spaces + 1 nodes per span',
         'cdef helpers (from_seq, next_lexicographic, intersect_intervals) are not callable from Python: they are tied through '
@@ -966,6 +1006,7 @@ def run(ctx):
     ctx.cov['forms'] = {'shipped': len(shipped), 'corpus': len(corpus), 'two_space': len(pgforms), 'fresh_compiled': len(fresh), 'generated_for_layout': len(gspecs),
                         'accepted_by_generator': len(accepted)}
     ctx.cov['stats'] = dict(stats)
+    ctx.cov['source_oracle_unsupported_samples'] = list(shadow_msgs)
     ctx.cov['rounding_bound'] = '1e-10 * running magnitude of the evaluation (sum over the joint-support nodes), + 1e-300'
     ctx.cov['largest_observed_error_over_bound'] = stats.get('maxratio', 0.0)
     ctx.cov['rule'] = ('layout: one case per (function, input) compared exactly inside Coq; layer 4: evaluations = assembled entries '
